@@ -651,6 +651,14 @@ class Interp:
             return v
         if e.id in ("True", "False", "None"):
             return {"True": True, "False": False, "None": None}[e.id]
+        # a module-level literal constant of the file the current function lives in
+        if self._fi_stack and self.idx is not None:
+            node = getattr(self.idx, "module_consts", {}).get((self._fi_stack[-1].file, e.id))
+            if node is not None:
+                try:
+                    return ast.literal_eval(node)
+                except (ValueError, SyntaxError):
+                    pass
         return Residual(e.id)
 
     def e_Attribute(self, e, frame):
@@ -988,6 +996,8 @@ class Interp:
                 ckey = frame[f.id].text
             if f.id in frame and isinstance(frame[f.id], _Closure):
                 return frame[f.id](*[self.eval(a, frame) for a in e.args])
+            if f.id in frame and isinstance(frame[f.id], _MethodRef):
+                return frame[f.id](*[self.eval(a, frame) for a in e.args], **{k.arg: self.eval(k.value, frame) for k in e.keywords if k.arg})
         else:
             raise Undecidable(f"computed callee {full}")
         args = [self.eval(a.value if isinstance(a, ast.Starred) else a, frame) for a in e.args]
@@ -1004,6 +1014,22 @@ class Interp:
         ck_call = f"{ckey}()"
         if ck_call in self.domains:
             return self.choose(ck_call, self.domains[ck_call], memo=ck_call not in self.volatile)
+        # … or by the canonical text of the call (receiver and arguments with local aliases resolved), so that
+        # `cp = self.matcher.csvpath; cp.scanner.is_last(cp.line_monitor.physical_line_number)` finds the rule's entry
+        if ckey and not kwargs:
+            canons = [f"{ckey}({', '.join(txt(a) for a in args)})"]
+            if isinstance(f, ast.Attribute) and dotted(f.value) is not None:   # plain name/attribute chain only: never re-evaluate a call
+                rk = self.attr_key(f.value, frame)   # the receiver as a store path (aliases resolved), also when it holds an abstract object
+                if rk:
+                    canons.append(f"{rk}.{meth}({', '.join(txt(a) for a in args)})")
+            for canon in canons:
+                if canon == full:
+                    continue
+                if canon in self.store:
+                    self.path.trace.append(("consult", canon, self.store[canon]))
+                    return self.store[canon]
+                if canon in self.domains:
+                    return self.choose(canon, self.domains[canon], memo=canon not in self.volatile)
         # rule handlers
         h = self.handlers.get(ckey) or (self.handlers.get("." + meth) if recv is not None else None) or (
             self.handlers.get(meth) if recv is None else None)
@@ -1189,9 +1215,14 @@ class _MethodRef:
         self.interp, self.fi, self.selfkey = interp, fi, selfkey
 
     def __call__(self, *args, **kwargs):
+        it = self.interp
+        # a rule's model of this method takes precedence, exactly as for a direct call
+        h = it.handlers.get(f"{self.selfkey}.{self.fi.name}") or it.handlers.get("." + self.fi.name)
+        if h is not None:
+            return h(it, None, Residual(self.selfkey), list(args), dict(kwargs))
         a = dict(kwargs)
         a["__pos__"] = list(args)
-        return self.interp.call_function(self.fi, a, self.selfkey)
+        return it.call_function(self.fi, a, self.selfkey)
 
     def __deepcopy__(self, memo):
         return self
